@@ -206,6 +206,9 @@ func (o *CandidateNode) MarshalJSON() ([]byte, error) {
 		log.Debugf("MarshalJSON MappingNode")
 		buf.WriteByte('{')
 		for i := 0; i < len(o.Content); i += 2 {
+			if o.Content[i].Kind != ScalarNode {
+				return nil, fmt.Errorf("cannot encode a map key that is not a scalar (%v) as json", o.Content[i].GetNicePath())
+			}
 			if err := enc.Encode(o.Content[i].Value); err != nil {
 				return nil, err
 			}
